@@ -18,7 +18,7 @@ def gen_knobs(rng: random.Random) -> dict:
     k: dict = {}
     # swarm: each knob is left at its default in a good share of the runs
     if rng.random() < 0.5:
-        k["rx_type"] = pick(rng, ["bytes", "bytearray", "memoryview", "bytearray_reused", "memoryview_reused", "memoryview_slice"])
+        k["rx_type"] = pick(rng, ["bytes", "bytearray", "memoryview", "bytearray_reused", "memoryview_reused", "memoryview_slice", "memoryview_wide", "memoryview_strided"])
     if rng.random() < 0.4:
         k["handler_order"] = "lifo"
     if rng.random() < 0.2:
@@ -75,6 +75,9 @@ def gen_transport(rng: random.Random, client: dict, device: dict, noise_p: float
         device["transport"] = "noise"
         device["psk"] = psk
         device["eph_seed"] = "%08x" % rng.getrandbits(32)
+        if rng.random() < 0.05:
+            # (first connection only) an ephemeral public key that starts or ends with a zero byte
+            device["eph_seed"] = pick(rng, ["ce", "169", "1d8", "22a", "14c7d", "25", "6f"])
         if rng.random() < 0.2:
             device["noise_hello_name"] = False
 
